@@ -115,16 +115,10 @@ impl BackwardEngine {
 
         // Check cache if memoization enabled
         if self.config.enable_memoization {
-            if let Some(cached) = self.goal_manager.is_cached(&memo_key) {
-                return Ok(if cached {
-                    QueryResult::success(
-                        goal.bindings.to_map(), // Convert Bindings to HashMap
-                        ProofTrace::from_goal(&goal),
-                        QueryStats::default(),
-                    )
-                } else {
-                    QueryResult::failure(vec![], QueryStats::default())
-                });
+            // Only a negative verdict can be answered from the cache: a positive one promises that the
+            // derived facts are in the caller's store, which the search establishes by running the rules
+            if self.goal_manager.is_cached(&memo_key) == Some(false) {
+                return Ok(QueryResult::failure(vec![], QueryStats::default()));
             }
         }
 
